@@ -17,7 +17,7 @@ type Ref struct {
 	Pending   []int       // objects, insertion order, one per hash id
 	Exec      map[int]int // hash id -> object recorded
 	Blocks    []RefBlock
-	LastBatch []int // result of the last pack, consumed by mark / cleared by unmark
+	LastBatch []int // result of the last pack; consumed when it is put into a block (mark that is not remote)
 
 	lastUnmarked []int // transient: hash ids re-pended by the last unmark
 }
@@ -213,7 +213,9 @@ func (r *Ref) Step(op Op, obs Obs) []Finding {
 			r.removePending(u.HID[t])
 		}
 		r.Blocks = append(r.Blocks, RefBlock{append([]int(nil), op.Txs...), append([]int(nil), op.Evicted...)})
-		r.LastBatch = nil
+		if !op.Remote {
+			r.LastBatch = nil
+		}
 	case "unmark":
 		if len(r.Blocks) == 0 {
 			break
@@ -228,20 +230,32 @@ func (r *Ref) Step(op Op, obs Obs) []Finding {
 			}
 			r.lastUnmarked = append(r.lastUnmarked, h)
 		}
-		r.LastBatch = nil
 	case "get":
 		want := r.Known(op.Tx)
 		if obs.OK != want {
-			add("C17:lookup:GetTransaction", fmt.Sprintf("GetTransaction(%s) found=%v err=%q, model says known=%v", txOrAbsent(u, op.Tx), obs.OK, obs.Err, want))
+			add("C17:lookup:GetTransaction:"+r.class(op.Tx), fmt.Sprintf("GetTransaction(%s) found=%v err=%q, model says known=%v", txOrAbsent(u, op.Tx), obs.OK, obs.Err, want))
 		} else if obs.OK && !obs.HashOK {
 			add("C17:lookup:wrong-tx", fmt.Sprintf("GetTransaction(%s) returned a transaction with another hash", txOrAbsent(u, op.Tx)))
 		}
 	case "exist":
 		if want := r.Known(op.Tx); obs.OK != want {
-			add("C17:lookup:IsExisted", fmt.Sprintf("IsExisted(%s)=%v, model says %v", txOrAbsent(u, op.Tx), obs.OK, want))
+			add("C17:lookup:IsExisted:"+r.class(op.Tx), fmt.Sprintf("IsExisted(%s)=%v, model says %v", txOrAbsent(u, op.Tx), obs.OK, want))
 		}
 	}
 	return fs
+}
+
+// class says what the model knows about the hash of transaction i.
+func (r *Ref) class(i int) string {
+	if i >= 0 {
+		if _, ex := r.Exec[r.U.HID[i]]; ex {
+			return "executed"
+		}
+		if r.pendingPos(r.U.HID[i]) >= 0 {
+			return "pending"
+		}
+	}
+	return "unknown"
 }
 
 func txOrAbsent(u *Universe, i int) string {
@@ -415,7 +429,13 @@ func (r *Ref) Enabled(g Gen) []Op {
 	for k := 0; k < g.NK; k++ {
 		ops = append(ops, Op{Kind: "pack", K: k})
 	}
-	if n := len(r.LastBatch); n > 0 {
+	stale := false // a batch holding a transaction that meanwhile got executed cannot go into a canonical block
+	for _, t := range r.LastBatch {
+		if _, ex := r.Exec[u.HID[t]]; ex {
+			stale = true
+		}
+	}
+	if n := len(r.LastBatch); n > 0 && !stale {
 		var subsets [][]int // positions
 		var rec func(start int, cur []int)
 		rec = func(start int, cur []int) {
